@@ -165,6 +165,14 @@ impl TryFrom<ParameterValue> for String {
     }
 }
 
+/// A max_streams transport parameter greater than 2^60 would allow a stream ID that cannot be
+/// expressed as a variable-length integer; receipt is a TRANSPORT_PARAMETER_ERROR.
+/// See [section-4.6](https://datatracker.ietf.org/doc/html/rfc9000#section-4.6).
+const MAX_STREAMS_LIMIT: u64 = 1 << 60;
+/// Values of 2^14 or greater are invalid for max_ack_delay (milliseconds).
+/// See [section-18.2](https://datatracker.ietf.org/doc/html/rfc9000#section-18.2-4.28.1).
+const MAX_ACK_DELAY_LIMIT: u64 = (1 << 14) - 1;
+
 #[repr(u64)]
 // qmacro::TransportParameter
 #[derive(qmacro::ParameterId, Debug, Clone, Copy, PartialEq, Eq, Hash)]
@@ -185,13 +193,13 @@ pub enum ParameterId {
     InitialMaxStreamDataBidiRemote = 0x0006,
     #[param(value_type = VarInt, default = 0u32)]
     InitialMaxStreamDataUni = 0x0007,
-    #[param(value_type = VarInt, default = 0u32)]
+    #[param(value_type = VarInt, default = 0u32, bound = 0..=MAX_STREAMS_LIMIT)]
     InitialMaxStreamsBidi = 0x0008,
-    #[param(value_type = VarInt, default = 0u32)]
+    #[param(value_type = VarInt, default = 0u32, bound = 0..=MAX_STREAMS_LIMIT)]
     InitialMaxStreamsUni = 0x0009,
     #[param(value_type = VarInt, default = 3u32, bound = 0..=20)]
     AckDelayExponent = 0x000a,
-    #[param(value_type = Duration, default = Duration::from_millis(25))]
+    #[param(value_type = Duration, default = Duration::from_millis(25), bound = 0..=MAX_ACK_DELAY_LIMIT)]
     MaxAckDelay = 0x000b,
     #[param(value_type = Boolean)]
     DisableActiveMigration = 0x000c,
